@@ -11,9 +11,9 @@
    checked by correspondence (pretty-printing generated ASTs under all spellings/layouts and comparing the parser's
    ASTs and the verdicts; tools/gv/props/c14.py). *)
 From GV.Model Require Import Ast Spec.
-From GV.Model Require Import Lex ValueParse QueryParse OpParse ClauseParse.
+From GV.Model Require Import Lex ValueParse QueryParse OpParse ClauseParse CnfParse.
 From GV.Proofs Require Import LexProps ValueParseProps ValueSpellProps ValueSpellExample.
-From GV.Proofs Require Import QueryParseProps QuerySpellProps QuerySpellExample ThisProps OpParseProps ClauseParseProps ClauseSpellProps ClauseSpellExample.
+From GV.Proofs Require Import QueryParseProps QuerySpellProps QuerySpellExample ThisProps OpParseProps ClauseParseProps ClauseSpellProps ClauseSpellExample CnfParseProps.
 
 Theorem C14_keyword_tables_are_the_documented_ones :
   set_eqb kw_in_keyword ["in"; "IN"] = true /\ set_eqb kw_keys ["keys"; "KEYS"] = true /\
@@ -240,3 +240,24 @@ Theorem C14_clause_spelling_instance :
     POk (mkPC false (AccessQuery [QKey "size"] true) (OLe, false) (Some (RQuery (AccessQuery [QKey "%limit"; QAllIndices None; QKey "max"] true))) None) "}".
 Proof. exact ex_clauses_parse. Qed.
 Print Assumptions C14_clause_spelling_instance.
+
+(* ---- lines of or-joined clauses (Model/CnfParse.v = parser.rs or_join / disjunction_clauses / cnf_clauses / single_clauses) ---- *)
+
+(* `or`, `OR` and `|OR|`, with any layout in front and any non-empty layout behind, are one separator *)
+Theorem C14_or_spellings_agree : forall t1 t2 w1 w1' w2 w2' X, In t1 kw_or_term -> In t2 kw_or_term ->
+  layout w1 -> layout w1' -> w1' <> EmptyString -> layout w2 -> layout w2' -> w2' <> EmptyString -> solid X ->
+  or_join (w1 +++ (t1 +++ (w1' +++ X))) = or_join (w2 +++ (t2 +++ (w2' +++ X))).
+Proof. exact or_spellings_agree. Qed.
+Print Assumptions C14_or_spellings_agree.
+
+(* in a line of alternatives: whichever way the separator is spelled, the line goes on with the same alternative from the same place *)
+Theorem C14_or_synonyms_in_a_line : forall A (f : string -> pres A) t1 t2 w1 w1' w2 w2' X n acc v r,
+  In t1 kw_or_term -> In t2 kw_or_term -> layout w1 -> layout w1' -> w1' <> EmptyString -> layout w2 -> layout w2' -> w2' <> EmptyString ->
+  solid X -> f X = POk v r ->
+  sep_loop or_join f (S n) acc (w1 +++ (t1 +++ (w1' +++ X))) = sep_loop or_join f (S n) acc (w2 +++ (t2 +++ (w2' +++ X))).
+Proof. exact or_synonyms_in_a_line. Qed.
+Print Assumptions C14_or_synonyms_in_a_line.
+
+Theorem C14_conditions_parser_answers : forall rv s, single_clauses_top rv s <> POof.
+Proof. exact conditions_parser_answers. Qed.
+Print Assumptions C14_conditions_parser_answers.
